@@ -287,6 +287,8 @@ def fd_apply(fdm, view, op):
     return view.slice(**kw)
   if op['kind'] == 'subset':
     ids = set(op['ids']) if op['as_set'] else list(op['ids'])
+    if not op['as_set'] and len(ids) >= 1 and (len(ids) + len(op['ids'][0])) % 3 == 0:
+      ids = ids + [ids[0]] + ids[-1:]      # an id list may name an id twice (e.g. two overlapping lists concatenated)
     return fdm.SubsetFederatedData(view, ids, validate=op['validate'])
   if op['kind'] == 'pre_client':
     return view.preprocess_client(op['fn'])
@@ -440,7 +442,11 @@ def observe(ctx, view, model, params, wit):
 
   # get_clients in request order (with repeats)
   req = params['req']
-  r = ctx.call('get_clients', lambda: list(view.get_clients(list(req))), witness=dict(wit, request=req))
+  # the request is an Iterable of ids: list, tuple, one-shot iterator or generator
+  rk = (len(req) + sum(len(c) for c in req)) % 4
+  as_req = [lambda: list(req), lambda: tuple(req), lambda: iter(list(req)), lambda: (c for c in list(req))][rk]
+  ctx.count('getclients-request-as:' + ['list', 'tuple', 'iterator', 'generator'][rk])
+  r = ctx.call('get_clients', lambda: list(view.get_clients(as_req())), witness=dict(wit, request=req, request_kind=rk))
   if r.ok:
     go = [c for c, _ in r.value]
     ctx.check(go == list(req), 'getclients/request-order', 'get_clients() does not echo the request order',
@@ -546,7 +552,7 @@ def run_case(ctx, fedjax, mods, rng, tmpdir, case_no):
     makers = {
         'mem': lambda: im.InMemoryFederatedData(mapping),
         'sql': lambda: sq.SQLiteFederatedData.new(path),
-        'submem': lambda: fdm.SubsetFederatedData(im.InMemoryFederatedData(dict(mapping)), list(ids)),
+        'submem': lambda: fdm.SubsetFederatedData(im.InMemoryFederatedData(dict(mapping)), list(ids) + list(ids)[:1]),
         'subsql': lambda: fdm.SubsetFederatedData(sq.SQLiteFederatedData.new(path), set(ids), validate=False),
         'sqlr': mk_sqlr,
     }
